@@ -52,6 +52,14 @@ func runRlimit() {
 			os.Exit(97)
 		}
 		lim := syscall.Rlimit{Cur: n, Max: n}
+		if os.Getenv("VERIF_RLIMIT_SOFT") != "" {
+			// soft limit only: the parent raises it step by step while the child runs (prlimit64 on a
+			// process of the same user may move the soft limit up to the hard one without privilege)
+			var cur syscall.Rlimit
+			if syscall.Getrlimit(res, &cur) == nil {
+				lim.Max = cur.Max
+			}
+		}
 		if err := syscall.Setrlimit(res, &lim); err != nil {
 			fmt.Fprintf(os.Stderr, "verif: setrlimit: %v\n", err)
 			os.Exit(97)
